@@ -182,6 +182,40 @@ def sgApply (n : Nat) (upds : List SgUpd) (x : Vec C) : Vec C :=
         if u.op = 0 then r else if u.op = 1 then out j + r else out j - r
       else out j) (fun _ => Num.ofInt 0)
 
+/-! ### `fourier_resample` / `fourier_resample_backprop` (prysm/fttools.py, prysm/x/dm.py) -/
+
+/-- source index of `np.roll(x, s)` along an axis of length `n`, for `0 ≤ s ≤ n`: `out[i] = x[(i − s) mod n]`
+(`fftshift` rolls by `n // 2`, `ifftshift` by `n − n // 2`) -/
+def rollIdx (n s i : Nat) : Nat := if i < s then i + n - s else i - s
+
+/-- roll both axes of an `m × n` array -/
+def roll2 (m n sy sx : Nat) (x : Mat C) : Mat C := fun i j => x (rollIdx m sy i) (rollIdx n sx j)
+
+/-- `fourier_resample` as a complex-linear operator: roll (`ifftshift`), `fft2` (`F1 @ · @ F2`), roll (`fftshift`),
+`mdft.idft2` with the bases `Eo : M×m`, `Ei : n×N`, scale by `c`; the roll amounts are parameters (translated from the source) -/
+def resampleFwd (m n M N preY preX postY postX : Nat) (F1 F2 Eo Ei : Mat C) (c : C) (f : Mat C) : Mat C :=
+  fun i j => c * idft2 M m n N Eo (roll2 m n postY postX (dft2 m m n n F1 (roll2 m n preY preX f) F2)) Ei i j
+
+/-- `fourier_resample_backprop`: `idft2_backprop`, roll, `ifft2` (`G1 @ (· @ G2)`), roll, scale by `c` -/
+def resampleBack (conj : C → C) (m n M N preY preX postY postX : Nat) (G1 G2 Eo Ei : Mat C) (c : C) (y : Mat C) : Mat C :=
+  fun i j => c * roll2 m n postY postX (idft2 m m n n G1 (roll2 m n preY preX (dftBack conj M m n N Eo y Ei)) G2) i j
+
+/-- the adjoint of each array operation of `fourier_resample`, by the tag the translator gives it
+(`fft2ᴴ = size · ifft2`: the size factor is accounted for by the translated scale factors) -/
+def resampleAdjointOf (step : String) : String :=
+  if step = "ifftshift" then "fftshift" else if step = "fftshift" then "ifftshift"
+  else if step = "fft2" then "ifft2" else if step = "idft2" then "idft2_backprop"
+  else if step = "real" then "real" else if step = "scale" then "scale" else "?"
+
+/-- the tabulated pipeline the driver runs for `fourier_resample_backprop` -/
+def resampleBackT (conj : C → C) (m n M N preY preX postY postX : Nat) (G1 G2 Eo Ei : Mat C) (c : C) (y : Mat C) : Tab C :=
+  let t0 := Tab.ofFn M n (matmul N y (conjT conj Ei))
+  let t1 := Tab.ofFn m n (matmul M (conjT conj Eo) t0.fn)
+  let t2 := Tab.ofFn m n (roll2 m n preY preX t1.fn)
+  let t3 := Tab.ofFn m n (matmul n t2.fn G2)
+  let t4 := Tab.ofFn m n (matmul m G1 t3.fn)
+  Tab.ofFn m n fun i j => c * roll2 m n postY postX t4.fn i j
+
 end linear
 
 /-! ## nodes with real parameters -/
@@ -456,6 +490,15 @@ def nllCost (lg : K → K) (n : Nat) (y yhat : Vec K) : K :=
     sumTo n fun i => yhat i * lg (y i) + (Num.ofInt 1 - yhat i) * lg (Num.ofInt 1 - y i)
 def nllGrad (n : Nat) (y yhat : Vec K) : Vec K :=
   fun i => (-(yhat i) / y i + (Num.ofInt 1 - yhat i) / (Num.ofInt 1 - y i)) * (Num.ofInt 1 / Num.ofInt (n : Int))
+
+/-! ### masked cost functions: `x[mask]` (compress) before the cost, `g2[mask] = g` (scatter into zeros) after -/
+
+/-- `x[mask]`: the `k`-th kept sample is `x[idx k]` (`idx` enumerates the True positions of the mask) -/
+def compress (idx : Nat → Nat) (x : Vec K) : Vec K := fun k => x (idx k)
+
+/-- `g2 = zeros; g2[mask] = g`: position `i` receives the gradient of the kept sample that sits there, else zero -/
+def scatterMask (cnt : Nat) (idx : Nat → Nat) (g : Vec K) : Vec K :=
+  fun i => sumTo cnt fun k => if idx k = i then g k else Num.ofInt 0
 
 end realnodes
 
